@@ -121,6 +121,38 @@ def missing_rules() -> list[str]:
     for (cn, name) in RULE_OF:
         if not hasattr(getattr(X, cn), name):
             out.append(f"reducer {cn}.{name} no longer exists")
+    return out + rule_table_mismatches()
+
+
+_TABLE_CACHE: list[str] | None = None
+
+
+def rule_table_mismatches() -> list[str]:
+    """static tie of the rule tables: for one instance of every class, the names in its ordered
+    `_reducers` list (whatever they are called) against the model's ordered `reducers` table"""
+    global _TABLE_CACHE
+    if _TABLE_CACHE is not None:
+        return _TABLE_CACHE
+    from . import wire
+    from .core import run_model
+    x = X.Variable("x")
+    samples = [X.Add(x, x), X.Multiply(x, x), X.Minus(x, x), X.Divide(x, x), X.Power(x, x),
+               X.Negation(x), X.Reciprocal(x), X.Cosine(x), X.Sine(x), X.NthPower(x, 2), X.NthRoot(x, 2),
+               X.Exponential(x), X.Logarithm(x)]
+    answers = run_model([f"F0 rules {wire.expr(e)}" for e in samples])
+    out = []
+    for e, a in zip(samples, answers):
+        cn = type(e).__name__
+        model = a.split()[1:]
+        try:
+            impl = [getattr(r, "__name__", repr(r)) for r in e._reducers]
+        except Exception as ex:  # noqa: BLE001
+            out.append(f"cannot read {cn}._reducers: {type(ex).__name__}: {ex}")
+            continue
+        mapped = [RULE_OF.get((cn, n), "?" + n) for n in impl]
+        if mapped != model:
+            out.append(f"reducer table of {cn} differs from the model: implementation {mapped} vs model {model}")
+    _TABLE_CACHE = out
     return out
 
 
